@@ -30,7 +30,7 @@ class C18(PoolCheck):
     LEVEL = 'exploration'
     GROUP = 1
     CASE_TIMEOUT = 180.0
-    FAMILIES = ('xsitype', 'keys', 'ids', 'fixed', 'subst', 'wild', 'assert11', 'mixed')
+    FAMILIES = ('xsitype', 'keys', 'ids', 'fixed', 'subst', 'wild', 'assert11', 'mixed', 'shadow')
     RULE = ("case = (family, scenario [built | racing_build | shared_lazy_resource], 2-4 thread programs of 1-3 "
             "operations each, schedule policy [uniform switching p in {0.001,0.01,0.05,0.2} | PCT d in {1,2,3} | "
             "targeted switching on entry to a random subset of shared-state functions | run-to-completion "
